@@ -142,3 +142,6 @@ def run(ctx):
     C07.r_index_arg(ctx)
     C06.r_open(ctx)
     C06.r_names(ctx)
+    # the statement refers to C01 ("a forest satisfying C01"): C01's structural clauses are re-checked by this check too
+    from props import C01
+    C01.rules(ctx)
